@@ -103,6 +103,9 @@ func Run(c *corr.Ctx) {
 		return
 	}
 	corpus(c)
+	if c.Want("C07") {
+		adtsSniffCorpus(c)
+	}
 	if c.Want("C03") || c.Want("C06") || c.Want("C08") {
 		headerTables(c)
 	}
@@ -165,6 +168,21 @@ func corpus(c *corr.Ctx) {
 		}
 		fm4.groupCase(c, p, []cu.Frame{f}, fmt.Sprintf("mpeg4audio-corpus-%v", sizes))
 	}
+}
+
+// adtsSniffCorpus: the known C07 finding.  The first packet of a fragmented AU is lost at the very
+// start of the stream; the remaining fragment happens to be a complete ADTS packet; the decoder
+// sniffs it, enters ADTS mode for ever and refuses every later (intact) raw AU.
+func adtsSniffCorpus(c *corr.Ctx) {
+	x := make([]byte, 26)
+	for i := range x {
+		x[i] = byte(i + 1)
+	}
+	fl := 12
+	x = append(x, 0xFF, 0xF1, 0x50, 0x80|byte(fl>>11), byte(fl>>3), byte(fl&7)<<5|0x1F, 0xFC, 9, 9, 9, 9, 9)
+	frames := []cu.Frame{{x}, {{1, 2, 3, 4, 5, 6, 7, 8, 9, 10}}, {{11, 12, 13, 14, 15}}}
+	p := cu.EncParams{PT: 96, SSRC: 8, Seq0: 100, Max: 30} // SSRC 8 → 13/3/3; X = 26 + 12 bytes
+	families[0].groupFault(c, p, frames, []string{"0:1", "1:0", "2:0"}, "mpeg4audio-corpus-adts-sniff")
 }
 
 func m4DecWith(sl, il, dl int) cu.Decoder { return newM4Dec(sl, il, dl) }
